@@ -58,6 +58,7 @@ func runC08(h *Harness) {
 	sc := h.R.Scenario
 	// in half of the runs, tasks that have just given up a lock are held back at a seeded subset of such sites
 	h.S.pDelayDen, h.S.delayFor = Pick(tp, 0, 0, 5, 10), Pick(tp, 2*time.Second, 20*time.Second)
+	h.S.pHoldDen, h.S.holdFor = Pick(tp, 0, 0, 0, 6), Pick(tp, 2*time.Second, 10*time.Second) // tasks held back while they hold a lock
 	sc["backend"], sc["trigger"], sc["pem"], sc["extra"], sc["width"], sc["rounds"], sc["readers"], sc["pre"], sc["smallwb"] = backend, trigger, pem, extra, width, rounds, readers, pre, smallWB
 	if faulty {
 		h.R.Config = "faulty"
@@ -165,14 +166,15 @@ func runC08(h *Harness) {
 			// (previous list kept) or, if the failing call is retried or harmless, succeed — never a partial list
 			target = next
 			if ff != nil {
-				method := Pick(tp, "InsertRevokedCert", "InsertRevokedCert", "InsertRevokedCert", "CreateStore", "StartUpdateCrl", "UpdateExtendedMetaInfo", "UpdateSignatureCertificate", "UpdateCRLLocations")
+				// ("Update" = the switch of the live store to the staged list fails before it had any effect)
+				method := Pick(tp, "InsertRevokedCert", "InsertRevokedCert", "InsertRevokedCert", "CreateStore", "StartUpdateCrl", "UpdateExtendedMetaInfo", "UpdateSignatureCertificate", "UpdateCRLLocations", "Update", "Update")
 				k := 1 + tp.Int(4+extra)
 				if method != "InsertRevokedCert" {
 					k = 1
 				}
 				seen := 0
 				ff.SetPlan(func(m string, temporary bool) error {
-					if !temporary || m != method {
+					if temporary == (m == "Update") || m != method {
 						return nil
 					}
 					seen++
